@@ -33,6 +33,7 @@ type profile struct {
 	// are pure safety rules, or that exempt faulted steps from must-succeed rules.
 	faultPct   int
 	faultKinds []string
+	faultOps   []string // if set, only these op kinds are faulted
 }
 
 var goodPWs = []string{"Passw0rd!A", "Passw0rd!B", "Passw0rd!C", "Passw0rd!D", "Zq9#mmmmX", "N3w-Secret_pw"}
@@ -68,6 +69,7 @@ func genConfig(t *rapid.T, p profile) harness.Config {
 	sets := append([]string(nil), p.mustSetups...)
 	sets = append(sets, subset(t, "setup", p.setups, 60)...)
 	c.Setups = perm(t, "setuporder", sets)
+	c.SetupsFirst = len(sets) > 0 && chance(t, "setupsfirst", 30)
 	c.Mount = pick(t, "mount", "/auth", "/auth", "", "/a/b")
 	c.JSON = chance(t, "json", 40)
 	c.Username = chance(t, "username", 20)
@@ -291,7 +293,7 @@ func drawOp(t *rapid.T, kind string, e genEnv) Op {
 		op.S = pick(t, "pw", goodPWs...)
 	case "logout":
 		if chance(t, "othermethod", 25) {
-			op.S = pick(t, "method", "GET", "POST", "DELETE", "PUT")
+			op.S = pick(t, "method", "GET", "POST", "DELETE", "PUT", "HEAD", "PATCH", "OPTIONS")
 		}
 	case "visit":
 		op.S = pick(t, "route", visitRoutes...)
@@ -684,7 +686,7 @@ func drawSnippet(t *rapid.T, name string, e genEnv) []Op {
 		}
 		lo := Op{K: "logout", B: b}
 		if chance(t, "othermethod", 20) {
-			lo.S = pick(t, "method", "GET", "POST", "DELETE", "PUT")
+			lo.S = pick(t, "method", "GET", "POST", "DELETE", "PUT", "HEAD", "PATCH")
 		}
 		ops = append(ops, lo)
 		if chance(t, "after", 40) {
@@ -845,6 +847,9 @@ func genCase(t *rapid.T, p profile) Case {
 			kinds = []string{"generic"}
 		}
 		for i := range c.Ops {
+			if len(p.faultOps) > 0 && !contains(p.faultOps, c.Ops[i].K) {
+				continue
+			}
 			if c.Ops[i].FA == 0 && chance(t, "fault", p.faultPct) {
 				c.Ops[i].FA = pick(t, "faultat", 1, 1, 1, 2, 2, 3, 3, 4, 5, 6, 7)
 				c.Ops[i].FK = pick(t, "faultkind", kinds...)
@@ -855,3 +860,12 @@ func genCase(t *rapid.T, p profile) Case {
 }
 
 var allModules = []string{"auth", "confirm", "lock", "logout", "oauth2", "otp", "recover", "register", "remember"}
+
+func contains(xs []string, x string) bool {
+	for _, y := range xs {
+		if y == x {
+			return true
+		}
+	}
+	return false
+}
